@@ -1,6 +1,7 @@
 """Sidecar contracts, one module per repository module (DESIGN section 2.4)."""
 MODULES = [
     "contracts.obs_kernel",
+    "contracts.obs_grad",
     "contracts.dirac",
     "contracts.special",
 ]
